@@ -2,8 +2,10 @@ package props
 
 import (
 	"fmt"
+	"os"
 	"reflect"
 	"strings"
+	"sync"
 	"time"
 
 	p9p "github.com/frobnitzem/go-p9p"
@@ -414,4 +416,83 @@ func c06(c *core.Ctx) {
 	}
 	plans = append(plans, Plan{Sc: deep, Max: -1}) // full pipelining depth: one (default) schedule
 	runPlans(c, plans)
+}
+
+// runRaceMode explores the scenarios in race-detector worker processes
+// (norace hand-offs, see vsched/handoff_race.go): every schedule up to the
+// preemption bound is executed serially and the detector reports each pair
+// of unsynchronised accesses that occurs in one of them. A report is
+// confirmed by re-executing its schedule.
+func runRaceMode(c *core.Ctx, scs []*explore.Scenario, bound int) {
+	if _, err := os.Stat(explore.RaceBinary()); err != nil {
+		c.Set("race_mode", "race-detector build not present: the data-race clause was NOT decided in this run")
+		c.NotExhaustive("race mode unavailable")
+		return
+	}
+	type res struct {
+		st   *explore.Stats
+		reps []explore.RaceReport
+		err  error
+	}
+	out := make([]res, len(scs))
+	var wg sync.WaitGroup
+	sem := make(chan struct{}, c.Workers)
+	for i, sc := range scs {
+		wg.Add(1)
+		go func(i int, sc *explore.Scenario) {
+			defer wg.Done()
+			sem <- struct{}{}
+			defer func() { <-sem }()
+			st, reps, err := explore.RaceRun(c.Prop, sc, explore.Options{PBound: bound, Deadline: c.Deadline}, true, nil)
+			out[i] = res{st, reps, err}
+		}(i, sc)
+	}
+	wg.Wait()
+	var execs int64
+	sigs := map[string]bool{}
+	for i, r := range out {
+		sc := scs[i]
+		if r.err != nil {
+			c.EngineError("race mode %s: %v", sc.Name, r.err)
+			continue
+		}
+		execs += r.st.Execs
+		c.Count(r.st.Execs, r.st.States, r.st.Steps, r.st.Execs-r.st.Pruned)
+		c.Outcome(fmt.Sprintf("race-mode %s races=%d", sc.Name, len(r.reps)), 1)
+		if r.st.CompletedP < bound {
+			c.NotExhaustive(fmt.Sprintf("race mode %s: bound %d completed (target %d)", sc.Name, r.st.CompletedP, bound))
+		}
+		for _, rep := range r.reps {
+			if rep.Harness {
+				c.EngineError("race mode %s: the detector reported a race involving harness or engine code:\n%s", sc.Name, rep.Text)
+				continue
+			}
+			sig := c.Prop + ":race:" + rep.Sig()
+			if sigs[sig] {
+				continue
+			}
+			// confirm: the same pair must be reported again on that schedule
+			confirmed := rep.Choices == nil
+			if rep.Choices != nil {
+				for k := 0; k < 2 && !confirmed; k++ {
+					_, again, err := explore.RaceRun(c.Prop, sc, explore.Options{PBound: 0, NoCache: true}, false, [][]int{rep.Choices})
+					if err == nil {
+						for _, a := range again {
+							if a.Sig() == rep.Sig() {
+								confirmed = true
+							}
+						}
+					}
+				}
+			}
+			if !confirmed {
+				c.EngineError("race mode %s: report %s did not reproduce on its schedule %v", sc.Name, rep.Sig(), rep.Choices)
+				continue
+			}
+			sigs[sig] = true
+			c.Violation(sig, fmt.Sprintf("data race between %s and %s (scenario %s, schedule %v)\n%s", rep.Sites[0], rep.Sites[1], sc.Name, rep.Choices, rep.Text),
+				map[string]any{"scenario": sc.Name, "choices": rep.Choices, "race_mode": true, "sites": rep.Sites, "report": rep.Text})
+		}
+	}
+	c.Set("race_mode", fmt.Sprintf("%d scenarios explored to preemption bound %d in race-detector workers with norace hand-offs: %d executions, %d distinct race(s)", len(scs), bound, execs, len(sigs)))
 }
